@@ -99,10 +99,50 @@ def forward(plen, mtu, crc, flags, ext):
     return orig, sent, ctr, err
 
 
-def check_case(plen, mtu, crc, flags, ext, fails, stats):
+def originate(plen, mtu, crc, flags, ext):
+    '''a locally created bundle handed to Agent.send_bundle (as the applications do): no Previous Node block is added'''
+    cfg = Config()
+    cfg.node_id = 'dtn://me/'
+    cfg._bus_conn = dbus.bus.BusConnection()
+    GLib.reset()
+    ag = bp.agent.Agent(cfg)
+    sent = []
+
+    class FakeCl(object):
+        serv_name = 'x'
+
+        def send_bundle_func(self, raw):
+            return lambda data: sent.append(data)
+    ag._cl_agent['udpcl'] = FakeCl()
+    cfg.tx_route_table.append(TxRouteItem(eid_pattern=re.compile(r'.*'), next_nodeid='dtn://n/', cl_type='udpcl',
+                                          raw_config={}, mtu=mtu))
+    orig = mk_bundle(plen, crc, flags, ext)
+    ctr = BundleContainer(Bundle(bytes(orig)))
+    err = None
+    try:
+        ag.send_bundle(ctr)
+    except Exception as e:  # noqa
+        # the caller of send_bundle is told that the bundle could not be sent: allowed, as long as nothing leaves
+        err = '%s: %s' % (type(e).__name__, e)
+    try:
+        GLib.pump_idle(400)
+    except Exception as e:  # noqa
+        err = '%s: %s' % (type(e).__name__, e)
+    return orig, sent, ctr, err
+
+
+def check_case(plen, mtu, crc, flags, ext, fails, stats, mode='forward'):
     stats['evaluations'] += 1
-    case = {'payload_len': plen, 'mtu': mtu, 'crc_type': crc, 'flags': flags, 'ext': [(t, f, len(d)) for t, f, d in ext]}
-    orig, sent, ctr, err = forward(plen, mtu, crc, flags, ext)
+    case = {'payload_len': plen, 'mtu': mtu, 'crc_type': crc, 'flags': flags, 'ext': [(t, f, len(d)) for t, f, d in ext],
+            'mode': mode}
+    if mode == 'originate':
+        orig, sent, ctr, err = originate(plen, mtu, crc, flags, ext)
+        if err and sent:
+            fails.append({'check': 'P-partial-after-failure', 'case': case, 'got': [len(d) for d in sent], 'error': err})
+            return
+        err = None
+    else:
+        orig, sent, ctr, err = forward(plen, mtu, crc, flags, ext)
     payload = orig.blocks[-1].getfieldval('btsd')
     if err:
         fails.append({'check': 'E-exception', 'case': case, 'got': err})
@@ -168,7 +208,7 @@ def main(argv):
         c = one.get('case')
         if c:
             ext = [(t, f, bytes(n)) for (t, f, n) in c['ext']]
-            check_case(c['payload_len'], c['mtu'], c['crc_type'], c['flags'], ext, fails, stats)
+            check_case(c['payload_len'], c['mtu'], c['crc_type'], c['flags'], ext, fails, stats, mode=c.get('mode', 'forward'))
         else:
             check_length_rule(fails, stats)
         print('  observed: %s' % json.dumps(fails)[:1500])
@@ -191,9 +231,35 @@ def main(argv):
                         check_case(plen, mtu, crc, flags, ext, fails, stats)
                         if len(samples) < 3 and mtu == 100 and plen == 700:
                             samples.append({'payload_len': plen, 'mtu': mtu, 'crc_type': crc, 'extension_blocks': len(ext)})
+    # MTUs right around the smallest one for which fragmentation is possible at all (the feasibility margin of
+    # Fragment._create: non-payload size plus three CBOR heads): a partial fragment set must never leave
+    sweep = 0
+    for crc in (0, 1, 2):
+        for ext in exts:
+            for plen in ((30, 100, 300) if tier == 'quick' else (25, 30, 100, 257, 300, 70000)):
+                h = hsize(plen)
+                # non-payload size of the bundle as the agent transmits it (forwarding adds a Previous Node block)
+                _o, whole, _c, _e = forward(plen, None, crc, 0, ext)
+                if len(whole) != 1:
+                    fails.append({'check': 'U-unchanged', 'case': {'payload_len': plen, 'mtu': None, 'crc_type': crc,
+                                                                   'flags': 0, 'ext': [(t, f, len(d)) for t, f, d in ext]}})
+                    continue
+                base = len(whole[0]) - plen
+                for mtu in range(max(1, base - h - 2), base + 3 * h + 4):
+                    check_case(plen, mtu, crc, 0, ext, fails, stats)
+                    sweep += 1
+                # the same for a locally originated bundle (nothing is added to it before the transmit chain)
+                _o, whole, _c, _e = originate(plen, None, crc, 0, ext)
+                if len(whole) != 1:
+                    continue
+                base = len(whole[0]) - plen
+                for mtu in range(max(1, base - h - 2), base + 3 * h + 4):
+                    check_case(plen, mtu, crc, 0, ext, fails, stats, mode='originate')
+                    sweep += 1
     out = {'tool': 'grid enumeration on the real agent (receive, forward, fragment, fake convergence layer) and the real encoders',
            'bound': 'payload lengths %s x MTUs %s x CRC types 0/1/2 x 3 extension-block sets (replicate flag on/off); '
-                    'length rule at the CBOR head boundaries 23/24, 255/256, 65535/65536' % (plens, mtus),
+                    'length rule at the CBOR head boundaries 23/24, 255/256, 65535/65536; plus %d cases with every MTU '
+                    'from (non-payload size - head - 2) to (non-payload size + 3 heads + 3)' % (plens, mtus, sweep),
            'evaluations': stats['evaluations'], 'distinct_nontrivial': stats['evaluations'],
            'rule': 'one case = one (payload length, MTU, CRC type, flags, extension set) forwarding run or one encoder '
                    'length comparison; all distinct by construction',
